@@ -21,6 +21,7 @@ import (
 	networkingv1 "k8s.io/api/networking/v1"
 	metav1 "k8s.io/apimachinery/pkg/apis/meta/v1"
 	"k8s.io/apimachinery/pkg/util/intstr"
+	"tkestack.io/galaxy/verifsim/core"
 )
 
 // HostileFeatures are the per-run swarm switches of the hostile generator (a run draws a subset, so that one
@@ -36,12 +37,44 @@ type HostileFeatures struct {
 	Tombstones   bool // deletes delivered as DeletedFinalStateUnknown
 	Resyncs      bool // update events with identical objects
 	Direct       bool // direct SyncPodChains / SyncPodIPInIPSet calls with hostile pods
+	KernelFaults int  // per-mille of iptables / iptables-save / iptables-restore / ipset invocations that fail (0 = none)
 }
 
 func (w *World) genHostileFeatures() HostileFeatures {
 	c := w.C
 	return HostileFeatures{OffDirection: c.Prob(1, 3), Ports: c.Prob(1, 2), Blocks: c.Prob(1, 2), Selectors: c.Prob(1, 2), Huge: c.Prob(1, 6),
-		Names: c.Prob(1, 3), Pods: c.Prob(1, 2), Tombstones: c.Prob(1, 3), Resyncs: c.Prob(1, 3), Direct: c.Prob(1, 2)}
+		Names: c.Prob(1, 3), Pods: c.Prob(1, 2), Tombstones: c.Prob(1, 3), Resyncs: c.Prob(1, 3), Direct: c.Prob(1, 2),
+		KernelFaults: []int{0, 0, 20, 100, 400}[c.Choose(5)]}
+}
+
+// kernelFault makes the simulated tools fail the way the real ones do under load or on a damaged host: the xtables
+// lock cannot be taken, the kernel is out of memory, ipset's netlink call fails. Nothing is applied. Every
+// error branch of pkg/policy behind ensureBasicChain / EnsureChain / EnsureRule / DeleteRule / ListRule / SaveInto /
+// RestoreAll / ListSets / CreateSet / ListEntries / AddEntry / DelEntry / DestroySet is reached this way; C18 asks that
+// none of them crashes or wedges the daemon. Off for the follow-up synchronisation at the end.
+func (w *World) kernelFault(r *core.Req) *core.Resp {
+	if !w.hostile || w.HF.KernelFaults == 0 || w.stage != 0 || len(r.A) == 0 || !w.C.Prob(w.HF.KernelFaults, 1000) {
+		return nil
+	}
+	tool := r.A[0]
+	w.S.Stat("fault." + map[string]string{"ipset": "ipset.err"}[tool] + map[string]string{"iptables": "ipt.err", "iptables-save": "ipt.err", "iptables-restore": "ipt.err"}[tool])
+	w.S.Sig("F:" + tool)
+	switch tool {
+	case "ipset":
+		return &core.Resp{Code: 1, B: []byte("ipset v6.29: Kernel error received: Cannot allocate memory\n")}
+	case "iptables-restore":
+		if w.C.Prob(1, 2) {
+			return &core.Resp{Code: 4, B: []byte("Another app is currently holding the xtables lock. Perhaps you want to use the -w option?\n")}
+		}
+		return &core.Resp{Code: 1, B: []byte("iptables-restore: line 1 failed\n")}
+	case "iptables-save":
+		return &core.Resp{Code: 1, B: []byte("iptables-save v1.4.21: Cannot initialize: Permission denied\n")}
+	}
+	if w.C.Prob(1, 2) {
+		return &core.Resp{Code: 4, B: []byte("iptables: Resource temporarily unavailable.\n")}
+	}
+	// exit status 1 is what EnsureChain takes for "chain exists" and checkRule for "rule absent"
+	return &core.Resp{Code: 1, B: []byte("iptables: Memory allocation problem.\n")}
 }
 
 var hostileLabelValues = []string{"", "a", "A-b_c.d", "0", strings.Repeat("x", 63), "web", "true", "1.2.3"}
